@@ -13,6 +13,10 @@ CHECKS = {
             "The lexer claim is complete for all character strings (every reachable state of the product of the grammar-derived automaton with the deserialised lexer ATN carries the same earliest-accepting-rule label); the parser claim is complete per rule (equal regular languages over token/rule names for all 35 rules, plus per-operator precedence table); all eight ATN copies, vocabularies and rule skeletons of both targets are compared element by element; real-parser verdicts are checked on every bounded sentence per rule and every single-token mutation.",
             "Trusted: ANTLR Python runtime ATNDeserializer, the g4 reader. The C++ parser is not executed (no C++ ANTLR runtime): for C++ only identity of automata, vocabularies and rule skeletons is claimed.",
             "DESIGN.md section 5 C14"),
+    "C10": ("exploration", "bounded-exhaustive token-level mutation and token-soup enumeration vs g4-derived Earley oracle",
+            "Every single-token deletion, truncation, substitution, insertion and adjacent swap of base scripts covering every rule context, and every token soup up to the stated length after valid prefixes, is run through the real syntax stage, loads and (for a stratified subset plus every non-ASCII text) load; verdict, exception type and reported position are compared with a recogniser derived mechanically from blackbird.g4. Complete for the stated alphabet and bounds.",
+            "Trusted: g4 reader, reference tokenizer and Earley recogniser (themselves proved equal to the shipped automata by C14). LF line ends only; message wording not inspected.",
+            "DESIGN.md section 5 C10"),
     # id: (category, technique, text, note, design_ref)
     "C02": ("exploration", "bounded-exhaustive enumeration of script prefixes (BFS over item sequences) vs reference denotation",
             "Every item sequence over the statement menu up to the stated depth is rendered, loaded by the real parser/evaluator and compared with an independently written reference denotation; complete for the stated alphabet and depth, nothing beyond.",
